@@ -530,6 +530,13 @@ def rows_equal(a, b, exact, scale):
     return True
 
 
+def with_batch_format(rng, c):
+    """Matrix-input estimators: the transform batches are handed over as CSR, CSC or COO (fit stays CSR)."""
+    if c.get("data_kind") in ("spmatrix", "counts") and "batch_format" not in c:
+        c["batch_format"] = rng.choice(["csr", "csc", "csc", "coo"])
+    return c
+
+
 def check_case(c, outs, ref=None):
     """The property on one case.  Returns list of (message, op).  `ref` = rows of the full batch from another
     thread-count run (cross-run comparison)."""
@@ -596,6 +603,8 @@ def run(ctx, replay=None):
             for _ in range(QUICK[c0["est"]] * mult - 1):
                 cases.append(g(ctx.rng))
         cases += long_cases(ctx.rng, ctx.quick)
+        fr = __import__("random").Random(ctx.seed * 7919 + 12)      # separate stream: leaves the case stream unchanged
+        cases = [with_batch_format(fr, c) for c in cases]
     ctx.coverage["rule"] = ("for each of the 14 row-wise estimators: random small fitted model + batch (any items: unseen tokens / "
                             "phrases / codes / characters, empty and 1-element items, items without output entries; for the "
                             "matrix-input estimators (RowDenoise with normalize False and True, InfoWeight, CFC, Wasserstein "
